@@ -41,11 +41,15 @@ func vItoa(n int) string {
 
 //verif:stub os.CreateTemp
 func stubCreateTemp(dir, pattern string) (*os.File, error) {
+	vFSStep()
 	if vCreateTempFail {
 		return nil, errVDisk
 	}
+	if dir == "" {
+		dir = "/tmp"
+	}
 	f := &os.File{}
-	vf := &vFile{name: "/tmp/" + pattern + vItoa(len(vFileList))}
+	vf := &vFile{name: dir + "/" + pattern + vItoa(len(vFileList))}
 	vFiles[f] = vf
 	vFileList = append(vFileList, vf)
 	vByName[vf.name] = vf
@@ -74,8 +78,16 @@ func stubFileWrite(f *os.File, p []byte) (int, error) {
 		vFSStep()
 		return len(p), nil
 	}
+	if vCrashAfter >= 0 && vFSOps == vCrashAfter {
+		// killed inside the write: a truncated document is left in this (temporary) file
+		vf.data = append(vf.data[:vf.off], vJSONTruncate(p)...)
+		panic(vCrash{})
+	}
 	vf.data = append(vf.data[:vf.off], p...)
 	vf.off += len(p)
+	if vCrashAfter >= 0 {
+		vFSOps++
+	}
 	return len(p), nil
 }
 
@@ -139,6 +151,9 @@ func stubFileSeek(f *os.File, offset int64, whence int) (int64, error) {
 //verif:stub (*os.File).Close
 func stubFileClose(f *os.File) error {
 	vf := vFiles[f]
+	if vCrashAfter >= 0 {
+		vFSStep()
+	}
 	vf.closes++
 	if vf.closed {
 		return errVClosed
@@ -154,6 +169,9 @@ func stubFileName(f *os.File) string {
 
 //verif:stub os.Remove
 func stubOsRemove(name string) error {
+	if vCrashAfter >= 0 {
+		vFSStep()
+	}
 	vf := vByName[name]
 	if vf == nil || vf.removed {
 		return errVDisk
@@ -234,3 +252,22 @@ func stubOsOpen(name string) (*os.File, error) {
 	vFiles[f] = &vFile{name: name, shared: vf}
 	return f, nil
 }
+
+// rename is atomic: the destination has either its old or its new content, never a mixture
+//
+//verif:stub os.Rename
+func stubOsRename(oldpath, newpath string) error {
+	vFSStep()
+	src := vByName[oldpath]
+	if src == nil || src.removed {
+		return &os.PathError{Op: "rename", Path: oldpath, Err: os.ErrNotExist}
+	}
+	vByName[newpath] = &vFile{name: newpath, data: append([]byte{}, src.data...)}
+	src.removed = true
+	src.removes++
+	delete(vByName, oldpath)
+	vRenames++
+	return nil
+}
+
+var vRenames int
